@@ -63,6 +63,16 @@ func (n *Net) Apply(rng *Rng, b int, nodes int, steps []Step) []Step {
 			out = append(out, p)
 			d := 1 + rng.Intn(n.MaxDelay)
 			n.later[b+d] = append(n.later[b+d], Step{Kind: "send", ID: id, Signer: -1, Fault: "tx_delay", Ops: st.Ops})
+		case n.on("multi_msg", rng) && len(st.Ops) == 1:
+			// the same signer appends a second message to the transaction; usually one that must
+			// fail (so everything the first message did has to be rolled back), sometimes a copy
+			if rng.Chance(3, 4) {
+				st.Ops = append(st.Ops, mkOp("bank_send", st.Ops[0].A).withN("to", 0).withN("amt", 9_000_000_000_000_000_000))
+			} else {
+				st.Ops = append(st.Ops, st.Ops[0])
+			}
+			st.Fault = "multi_msg"
+			out = append(out, st)
 		case n.on("out_of_gas", rng):
 			st.Gas = uint64(rng.Range(40_000, 300_000))
 			st.Fault = "out_of_gas"
